@@ -119,11 +119,16 @@ def main():
         # the application's own file object, handed to the library as it is: append / update / write modes (BufferedWriter,
         # BufferedRandom, TextIOWrapper), default or explicit buffer size; kill points are then the returns of logging calls
         mode = sink.split(":", 1)[1]
+        opts = None
+        if ":" in mode:
+            mode, opts = mode.split(":", 1)
         kw = {"buffering": int(spec["bufsize"])} if spec.get("bufsize") else {}
         if "b" not in mode:
             kw.update(encoding="utf-8", newline="")
         os.close(fd)
         f = open(spec["log"], mode, **kw)
+        if opts:
+            f.reconfigure(**{opts: True})     # a text stream the application reconfigured: write_through / line_buffering
     else:
         f = KillFile(fd, spec)
     nack = [0]
